@@ -669,6 +669,12 @@ def conc_check(chk, programs, dfs_runs, rnd_runs, preempt, family_owner=None, sc
             # the execution did not follow the enumerated prefix (a goroutine of the code showed up at another moment)
             by_outcome["diverged"] = by_outcome.get("diverged", 0) + 1
             continue
+        if e["outcome"] == "stuck" or (e["outcome"] == "error" and "did not become quiet" in (e.get("detail") or "")):
+            # the scheduler gave up waiting for quiescence: a loaded machine, never a verdict; a few are tolerated
+            by_outcome["unsettled"] = by_outcome.get("unsettled", 0) + 1
+            if by_outcome["unsettled"] > max(5, len(execs) // 50):
+                raise Inconclusive("%d executions did not settle, e.g. %s: %s" % (by_outcome["unsettled"], e.get("program"), e.get("detail")))
+            continue
         if e["outcome"] != "ok":
             raise Inconclusive("execution of %s ended as %s: %s" % (e.get("program"), e["outcome"], e.get("detail")))
         hist.append(e["history"])
@@ -1107,7 +1113,10 @@ def c16(chk):
         if e["outcome"] in ("deadlock", "panic", "crash"):
             probs.append("%s: %s" % (e["outcome"], (e.get("detail") or "")[:700]))
         elif e["outcome"] == "stuck" and "prefix" not in (e.get("detail") or ""):
-            probs.append("a call does not return promptly: %s" % (e.get("detail") or "")[:500])
+            # the scheduler gave up waiting for quiescence (goroutines runnable or in a system call for seconds: a loaded
+            # machine, not a blocked call -- a blocked call is seen as such from its wait state). Never a verdict.
+            outcomes["unsettled"] = outcomes.get("unsettled", 0) + 1
+            continue
         if not probs:
             continue
         sig = None
@@ -1123,6 +1132,8 @@ def c16(chk):
                           {"scenario": e["scenario"], "events": e["events"], "decisions": e.get("decisions"), "executed": e.get("executed")})
     chk.traces += len(execs)
     chk.stages.append({"stage": "pool_executions", "scenarios": len(WP_SCENARIOS), "executions": len(execs), "outcomes": outcomes})
+    if outcomes.get("unsettled", 0) > max(5, len(execs) // 50):
+        raise Inconclusive("%d of %d pool executions did not settle (machine too loaded for the controlled scheduler)" % (outcomes["unsettled"], len(execs)))
     # ---- every recorded execution must be a behaviour of WPool.tla (binding; a rejection is drift, not a verdict)
     n_acc = n_rej = 0
     from concurrent.futures import ThreadPoolExecutor
